@@ -123,16 +123,14 @@ pub fn run(ctx: &mut Ctx, src: &Sources, f: &mut PosFn) {
 
     if src.fixed {
         let miri = ctx.config == "miri";
-        for (i, p) in gen::fixed_positions().iter().enumerate() {
-            if miri {
-                // one or two fixed corners per shard, rotating with the seed
-                let slot = (i as u64 + ctx.seed) % (ctx.nshards as u64 * 6);
-                if slot != ctx.shard as u64 {
-                    continue;
-                }
-                visit(ctx, p, "fixed", f);
-                continue;
+        if miri {
+            // two fixed corners per shard, rotating with the seed (parsing them all is slow there)
+            let start = (ctx.shard * 11 + ctx.seed as usize) % gen::FIXED_FENS.len();
+            for (_, p) in gen::fixed_positions_slice(start, 2) {
+                visit(ctx, &p, "fixed", f);
             }
+        }
+        for (i, p) in (if miri { Vec::new() } else { gen::fixed_positions() }).iter().enumerate() {
             if ctx.mine(i as u64) {
                 visit(ctx, p, "fixed", f);
                 // fixed corners always get their mirror too
@@ -161,7 +159,7 @@ pub fn run(ctx: &mut Ctx, src: &Sources, f: &mut PosFn) {
     }
 
     if src.walks > 0 {
-        let starts = gen::fixed_positions();
+        let starts: Vec<MPos> = if ctx.light() { gen::fixed_positions_slice(ctx.shard * 7, 3).into_iter().map(|x| x.1).collect() } else { gen::fixed_positions() };
         for _ in 0..src.walks {
             let start = if ctx.rng.chance(1, 3) {
                 starts[0].clone()
